@@ -7,11 +7,13 @@ cd "$WT" || exit 2
 git checkout -q -- include
 res() { echo "$@"; }
 FL=""
+CXXC=g++; LIBS=""
+case "$WT" in *C18*) CXXC=mpicxx; export OMPI_ALLOW_RUN_AS_ROOT=1 OMPI_ALLOW_RUN_AS_ROOT_CONFIRM=1 ;; *C17*) LIBS="-lboost_serialization" ;; esac
 grep -q -- "-DNDEBUG" "$M/notes.md" 2>/dev/null && grep -qi "needs -DNDEBUG\|compile.*-DNDEBUG" "$M/notes.md" && FL="-DNDEBUG"
-g++ -std=c++17 -O1 $FL -I"$WT/include" "$M/demo.cpp" -o /tmp/demo_clean_$$ 2>/tmp/demo_err_$$ || { res "DEMO-COMPILE-FAIL(clean)"; head -5 /tmp/demo_err_$$; exit 1; }
+$CXXC -std=c++17 -O1 $FL -I"$WT/include" "$M/demo.cpp" -o /tmp/demo_clean_$$ $LIBS 2>/tmp/demo_err_$$ || { res "DEMO-COMPILE-FAIL(clean)"; head -5 /tmp/demo_err_$$; exit 1; }
 timeout 60 /tmp/demo_clean_$$ >/dev/null 2>&1; RC_CLEAN=$?
 git apply "$M/patch.diff" || { res "PATCH-DOES-NOT-APPLY"; exit 1; }
-g++ -std=c++17 -O1 $FL -I"$WT/include" "$M/demo.cpp" -o /tmp/demo_mut_$$ 2>/tmp/demo_err_$$ || { res "DEMO-COMPILE-FAIL(mutated)"; git checkout -q -- include; exit 1; }
+$CXXC -std=c++17 -O1 $FL -I"$WT/include" "$M/demo.cpp" -o /tmp/demo_mut_$$ $LIBS 2>/tmp/demo_err_$$ || { res "DEMO-COMPILE-FAIL(mutated)"; git checkout -q -- include; exit 1; }
 timeout 60 /tmp/demo_mut_$$ >/dev/null 2>&1; RC_MUT=$?
 [ -d _b ] || cmake -G Ninja -B _b -DCMAKE_BUILD_TYPE=RelWithDebInfo -DCMAKE_CXX_FLAGS=-Wno-error >/dev/null 2>&1
 cmake --build _b -j16 >/tmp/build_$$.log 2>&1; RC_BUILD=$?
